@@ -183,6 +183,13 @@ func (rt *stubRT) RoundTrip(req *http.Request) (*http.Response, error) {
 		return mkResp(req, 200, "healthy"), nil
 	}
 	st.hits++
+	if req.Body != nil && req.Body != http.NoBody {
+		// like http.Transport: the request body is sent along; if reading it fails the round
+		// trip fails with that error (the backend has seen the head and part of the body)
+		if _, err := io.Copy(io.Discard, req.Body); err != nil {
+			return nil, fmt.Errorf("transport: reading the request body: %w", err)
+		}
+	}
 	if st.hold || req.Header.Get("X-Verif-Hold") != "" {
 		st.inflight++
 		if s := vrt.Cur(); s != nil {
@@ -464,6 +471,7 @@ func (k *kit) requestWith(client string, h http.Handler, edit func(*http.Request
 		if ms, err := strconv.Atoi(req.Header.Get("X-Verif-Client-Takes")); err == nil {
 			fr.takes = time.Duration(ms) * time.Millisecond
 		}
+		fr.refuses = req.Header.Get("X-Verif-Client-Refuses") != ""
 		h.ServeHTTP(fr, req)
 	}()
 	res.Status = rec.Code
@@ -480,10 +488,14 @@ type finalRecorder struct {
 	*httptest.ResponseRecorder
 	interim []int
 	takes   time.Duration // how long the client takes to accept one write (X-Verif-Client-Takes, ms)
+	refuses bool          // the client's connection is broken: writes of body bytes fail (X-Verif-Client-Refuses)
 }
 
 // Write: a client that is slow to take what it is sent makes the write take time
 func (f *finalRecorder) Write(p []byte) (int, error) {
+	if f.refuses {
+		return 0, errors.New("write tcp: broken pipe")
+	}
 	if f.takes > 0 {
 		if s := vrt.Cur(); s != nil {
 			s.AdvanceQuiet(f.takes)
@@ -520,6 +532,33 @@ func (k *kit) requestCancelled(client string) reqResult {
 		cancel()
 		*r = *r.WithContext(ctx)
 	})
+}
+
+// failingUpload is a request body that breaks off with an error after a few bytes (a malformed
+// chunk, a connection reset by the client while uploading): the request context stays alive.
+type failingUpload struct{ sent bool }
+
+func (b *failingUpload) Read(p []byte) (int, error) {
+	if !b.sent {
+		b.sent = true
+		return copy(p, "partial upload"), nil
+	}
+	return 0, errors.New("malformed chunked encoding")
+}
+func (b *failingUpload) Close() error { return nil }
+
+// requestBadUpload: the client's request body cannot be read to its end.
+func (k *kit) requestBadUpload(client string) reqResult {
+	return k.requestWith(client, nil, func(r *http.Request) {
+		r.Method = "POST"
+		r.Body = &failingUpload{}
+		r.ContentLength = -1
+	})
+}
+
+// requestClientRefuses: the backend answers well, but the client does not take the body.
+func (k *kit) requestClientRefuses(client string) reqResult {
+	return k.requestWith(client, nil, func(r *http.Request) { r.Header.Set("X-Verif-Client-Refuses", "1") })
 }
 
 // requestGoneMidway: the client goes away (its context is cancelled) while the request is in
